@@ -105,6 +105,26 @@ def run(ctx, chk):
     for f in sorted(reach):
         for li in structural.loop_kinds(prog, f):
             nloops += 1
+            if li['kind'] == 'while-pop-push':
+                # ranking argument on the abstract iteration paths: every iteration removes more
+                # elements than it puts back
+                segs = [s_ for s_ in sr.get('segments', []) if s_['func'] == f and s_['head'] == li['head']]
+                worst = None
+                for s_ in segs:
+                    evs = s_['st'].event_list()
+                    last = max(i for i, ev in enumerate(evs) if ev[0] == 'loop-head' and ev[1] == f and ev[2] == li['head'])
+                    tail = evs[last + 1:]
+                    head_pops = [ev for ev in tail if ev[0] == 'vec.pop']
+                    if not head_pops:
+                        continue
+                    vec = head_pops[0][1]
+                    pops = sum(1 for ev in tail if ev[0] == 'vec.pop' and ev[1] == vec and ev[2] != 'none')
+                    pushes = sum(1 for ev in tail if ev[0] in ('vec.push',) and ev[1] == vec)
+                    ext = sum(1 for ev in tail if ev[0] in ('vec.extend',) and ev[1] == vec)
+                    net = pops - pushes if not ext else -1
+                    worst = net if worst is None else min(worst, net)
+                li['ok'] = bool(segs) and worst is not None and worst >= 1
+                li['why'] += '; least net removal per iteration over %d abstract iteration paths: %s' % (len(segs), worst)
             chk.instance('R-TERM', short(f), 'loop#%d:%s' % (nloops_in(f, li, prog), li['kind']), li['ok'], detail=li['why'], span=li['span'],
                          what='loop not shown to terminate: %s' % li['why'], undischarged=(li['kind'] == 'other'))
     chk.floor('loops analysed', nloops, 25)
